@@ -195,6 +195,13 @@ def _search(rec, ctx):
 
     drive(st.randoms(use_true_random=False), construct, ctx.budget(16000, 400000), ctx.hseed("construct"))
 
+    # every ordered pair / triple of adjacent string-literal kinds (str, bytes, f-string with text at either end, raw, u,
+    # triple-quoted, path literals): the hand-written concatenation code must answer each with a tree or a SyntaxError
+    from ..gen import lex
+
+    for i, s in enumerate(ctx.shard(list(lex.string_concat_matrix(xonsh=False)) + list(lex.string_concat_matrix(xonsh=True)))):
+        check(rec, {"src": ("x = " + s + "\n") if i % 2 else ("f(" + s + ")"), "stream": "string-concat-matrix"})
+
     for s in ctx.shard(seeds):
         check(rec, {"src": s, "stream": "xonsh-seed", "file": True})
         for pre in mutate.token_prefixes(s):
